@@ -94,6 +94,7 @@ func runC06(r *Run, replay *Case) {
 	r.Res.Rule = "components with default/named slots, fallback, scoped props (named variable, destructured, none), supplied in v-slot:, # and plain-children form with dynamic content; " +
 		"1-3 instances side by side, slot inside v-for, nested components, the same slot used twice; each case runs in an isolated child process; non-trivial = every case"
 	for _, cs := range c06Cases() {
+		r.Add(pageCase("slots:"+cs.desc, cs.files, nil, "p.vuego", cs.data))
 		sub, verdict := runIsolated("C06", map[string]any{"desc": cs.desc}, cs.desc, 20*time.Second)
 		c := &Case{Name: cs.desc, Input: map[string]any{"desc": cs.desc, "files": cs.files}, Key: cs.desc, Tags: []string{"isolated"}}
 		if sub != nil {
